@@ -109,6 +109,10 @@ class C05(ProgProp):
         res.sample = {"table": name, "family_reference": fam, "lnotab_hex": case["table"], "first_line": first, "code_len": n}
         res.key = ["tabfam", name, case["table"], first, n]
         res.nontrivial = any(b >= 128 for b in table[1::2])
+        if vt < (3, 0) and (first + n) % 2:
+            # Python 2 code objects may carry the table as a str (one character per byte)
+            kw["co_lnotab"] = table.decode("latin-1")
+            res.classes.append("lnotab-as-str")
         try:
             co = x.codetype.to_portable(**kw)
             got = [[a, b] for a, b in opc.findlinestarts(co)]
